@@ -55,4 +55,13 @@ def line(idx, rng, maxn=8, maxlen=10, miri=False):
 def gen(tier, seed, count=None, maxn=8, maxlen=10, miri=False):
     rng = random.Random(seed * 7907 + 6)
     n = count or (160 if tier == "quick" else 6000)
-    return [line(i, rng, maxn=maxn, maxlen=maxlen, miri=miri) for i in range(n)]
+    out = [line(i, rng, maxn=maxn, maxlen=maxlen, miri=miri) for i in range(n)]
+    if count is None and not miri:
+        # a few histories with a long idle gap in the middle (workers must still be there, with their indices, afterwards);
+        # the calls before the gap finish at different times
+        gaps = [300, 1200, 2600, 2600] if tier == "quick" else [300, 1200, 2600, 2600, 2600, 5200, 5200, 11000]
+        for k, ms in enumerate(gaps):
+            hist = rng.choice([[3, 3, 2, 3], [4, 2, 4, 4], [2, 2, 2], [5, 3, 5, 1, 5]])
+            out.append("id=%d hist=%s pe=%d seed=%d reuse=1 dmode=%d damount=%d fpint=0 fpseed=1 gapat=%d gapms=%d" % (
+                n + k, ",".join(map(str, hist)), rng.choice([0, 1]), rng.randrange(1 << 30), rng.choice([3, 4, 2]), rng.choice([30, 120]), rng.randrange(1, len(hist)), ms))
+    return out
